@@ -8,6 +8,16 @@ from mc.common import Acc, jsonable
 from mc.vloop import HarnessError, World, apply_step, build, explore
 
 
+def mark_stateless(scs: List[Dict[str, Any]], k: int, depth: int) -> List[Dict[str, Any]]:
+    """Guard (b) of DESIGN 2.1: the k smallest level-0 scenarios are also explored without
+    state matching (every path up to `depth` steps) and must reach no fingerprint and no
+    violation that the merged search did not reach."""
+    cand = sorted((s for s in scs if s.get("level", 0) == 0), key=lambda s: (len(s.get("msgs", [])), len(repr(s))))[:k]
+    for s in cand:
+        s["stateless"] = depth
+    return scs
+
+
 def replay_history(make_world: Callable[[], World], history: List[Any]) -> World:
     return build(make_world, history)
 
@@ -63,6 +73,10 @@ def run_scenarios(
             for key, (msg, hist) in res2.violations.items():
                 if key.startswith(prefix) and key not in res.violations:
                     raise HarnessError(f"stateless search found {key} that the merged search missed: {_brief(sc)}")
+        # determinism tripwire on a passing schedule: replay the deepest explored history twice
+        if acc.counters.get("scenarios", 0) % 5 == 1 and res.sample is not None and not res.violations:
+            _double_replay(mk, res.sample[0])
+            acc.count("double_replays_of_passing_schedules")
         if per_scenario is not None:
             per_scenario(sc, res, acc)
         if acc.counters.get("scenarios", 0) % 7 == 1 and res.sample is not None:
@@ -79,6 +93,21 @@ def _brief(sc: Dict[str, Any]) -> Dict[str, Any]:
         else:
             out[k] = v
     return out
+
+
+def _double_replay(mk: Callable[[], World], hist: List[Any]) -> None:
+    obs = []
+    for _ in range(2):
+        w = mk()
+        fps = []
+        for step in hist:
+            apply_step(w, step)
+            w.activate()
+            fps.append(w.fingerprint())
+        obs.append((tuple(w.log), tuple(fps)))
+        w.teardown()
+    if obs[0] != obs[1]:
+        raise HarnessError(f"two replays of the same passing schedule differ (hidden nondeterminism): {hist!r}")
 
 
 def _confirm_deterministic(mk: Callable[[], World], hist: List[Any], key: str) -> None:
